@@ -1,6 +1,8 @@
 import Tally.Generated.Facts
-/-! Tie for C02: order of the two stores of `Update` (value first, flag second) and of swap-then-load
-in both report variants, re-checked against the current source. -/
+/-! Tie for C02: order of the two stores of `Update` (value first, flag second); both report variants take
+the gauge's report mutex first and release it only on return (so the visits of one gauge are mutually
+exclusive, which `Model.Gauge.step (.swap t)` relies on), then swap, then read the value as the argument of
+the reporter call; re-checked against the current source. -/
 namespace Tally.Tie.C02
 open Tally
 
@@ -8,9 +10,11 @@ theorem update_stores_value_then_flag :
     Facts.gaugeUpdateOps = ["atomic.StoreUint64(&g.curr, math.Float64bits(v))", "atomic.StoreUint64(&g.updated, 1)"] := rfl
 theorem value_is_one_load : Facts.gaugeValueOps = ["atomic.LoadUint64(&g.curr)"] := rfl
 theorem report_swaps_then_loads :
-    Facts.gaugeReportOps = ["atomic.SwapUint64(&g.updated, 0)", "r.ReportGauge(name, tags, g.value())", "g.value()"] := rfl
+    Facts.gaugeReportOps = ["g.reportMu.Lock()", "defer g.reportMu.Unlock()", "atomic.SwapUint64(&g.updated, 0)",
+      "r.ReportGauge(name, tags, g.value())", "g.value()"] := rfl
 theorem cached_report_swaps_then_loads :
-    Facts.gaugeCachedReportOps = ["atomic.SwapUint64(&g.updated, 0)", "g.cachedGauge.ReportGauge(g.value())", "g.value()"] := rfl
+    Facts.gaugeCachedReportOps = ["g.reportMu.Lock()", "defer g.reportMu.Unlock()", "atomic.SwapUint64(&g.updated, 0)",
+      "g.cachedGauge.ReportGauge(g.value())", "g.value()"] := rfl
 theorem report_only_when_swap_returned_one :
     Facts.gaugeReportGuards = ["atomic.SwapUint64(&g.updated, 0) == 1"] := rfl
 
